@@ -159,7 +159,7 @@ Proof.
   assert (H : forall s', s_returns s' = VVector -> s_returns (exclude_metric_name s' w g) = VVector).
   { intros s' Hs. unfold exclude_metric_name. destruct (_ && _); auto. }
   unfold agg_src. destruct op; try (apply H; reflexivity).
-  destruct (w || negb (String.eqb (str_of_expr p) metric_name)); [apply H|]; reflexivity.
+  destruct (w || negb (String.eqb (str_of_expr p) metric_name)); [apply H|]; destruct (lit_of p); reflexivity.
 Qed.
 
 Lemma agg_cons_plain op w g p s ls out :
@@ -184,9 +184,9 @@ Lemma agg_cons_count_values (w : bool) (g : list string) (dst : string) s ls out
   Cons s ls ->
   has out dst = (if w then negb (mem_str dst (metric_name :: g)) else true) ->
   (forall n, n <> dst -> get out n = get (group_key w g ls) n) ->
-  Cons (agg_src ACountValues w g (Some (EStr dst)) s) out.
+  forall p, lit_of p = Some dst -> Cons (agg_src ACountValues w g p s) out.
 Proof.
-  intros Hnd HC Hkeep He. unfold agg_src. cbn [str_of_expr].
+  intros Hnd HC Hkeep He p Hp. unfold agg_src. unfold str_of_expr. rewrite Hp.
   set (s1 := set_operation (parse_aggregation1 s w g) "count_values").
   assert (Hnd1 : nd s1) by (apply (nd_parse_aggregation1 s w g Hnd)).
   assert (HC1 : Cons s1 (group_key w g ls)).
